@@ -291,6 +291,62 @@ static uint8_t replacement(uint8_t b, int j) {
   return static_cast<uint8_t>(b + 1);
 }
 
+// ---------------------------------------------------------------- prefix / corruption sweeps over ONE image (a live sketch's, or a stored legacy / shipped one)
+template<class F, class T> std::string pfx_of(const std::string& kind, const std::string& img, const std::string& ref) {
+  const uint8_t* d = reinterpret_cast<const uint8_t*>(img.data());
+  const size_t n = img.size();
+  std::string details;
+  // cases: path-major; a warm-up call first so that lazily initialised library state is not counted as a leak
+  auto fn = [&](size_t i) -> char {
+    static bool warm = false;
+    if (!warm) { int fd = g_progress_fd; g_progress_fd = -1; try_case<F, T>(d, n, 0, ref, false); try_case<F, T>(d, n, 1, ref, false); g_progress_fd = fd; warm = true; }
+    return try_case<F, T>(d, i % n, static_cast<int>(i / n), ref, false);
+  };
+  std::string codes = n ? run_cases(2 * n, fn, details) : "";
+  std::ostringstream o;
+  o << "PFX " << kind << " " << vh::hex_of_bytes(d, n) << " | bytes=" << codes.substr(0, n) << " stream=" << codes.substr(n) << " |" << details;
+  return o.str();
+}
+
+// offsets: the byte positions to corrupt (chosen by the spec from the Lean field map: all structural bytes);
+// none given = the first 64 bytes
+template<class F, class T> std::string cor_of(const std::string& kind, const std::string& img, const std::string& ref, const std::vector<size_t>& offsets) {
+  const size_t n = img.size();
+  std::vector<size_t> ofs;
+  if (offsets.empty()) { for (size_t i = 0; i < std::min<size_t>(n, 64); ++i) ofs.push_back(i); }
+  else { for (size_t o : offsets) if (o < n) ofs.push_back(o); }
+  const size_t nofs = ofs.size();
+  std::string details;
+  auto fn = [&](size_t i) -> char {
+    static bool warm = false;
+    const uint8_t* d = reinterpret_cast<const uint8_t*>(img.data());
+    if (!warm) { int fd = g_progress_fd; g_progress_fd = -1; try_case<F, T>(d, n, 0, ref, true); try_case<F, T>(d, n, 1, ref, true); g_progress_fd = fd; warm = true; }
+    const int path = static_cast<int>(i / (nofs * 8));
+    const size_t off = ofs[(i % (nofs * 8)) / 8];
+    const int j = static_cast<int>(i % 8);
+    std::string m = img;
+    m[off] = static_cast<char>(replacement(static_cast<uint8_t>(img[off]), j));
+    if (m == img) return 'a';
+    return try_case<F, T>(reinterpret_cast<const uint8_t*>(m.data()), n, path, ref, true);
+  };
+  std::string codes = run_cases(2 * nofs * 8, fn, details, 8);
+  std::ostringstream o;
+  o << "COR " << kind << " " << vh::hex_of_bytes(reinterpret_cast<const uint8_t*>(img.data()), n) << " | ofs=";
+  for (size_t i = 0; i < nofs; ++i) o << (i ? "," : "") << ofs[i];
+  if (!nofs) o << "-";
+  o << " bytes=" << codes.substr(0, nofs * 8) << " stream=" << codes.substr(nofs * 8) << " |" << details;
+  return o.str();
+}
+
+// content of a stored image as the bytes reader of the current tree restores it (throws if the full image is rejected)
+template<class F, class T> std::string stored_ref(const std::string& img) {
+  using SK = typename F::SK;
+  std::unique_ptr<uint8_t, void(*)(void*)> blk(static_cast<uint8_t*>(malloc(img.size())), free);
+  if (!img.empty()) memcpy(blk.get(), img.data(), img.size());
+  SK s = SK::deserialize(blk.get(), img.size());
+  return content<F, T>(s);
+}
+
 // ---------------------------------------------------------------- sketch objects
 struct ISk {
   virtual ~ISk() {}
@@ -405,23 +461,7 @@ template<class F, class T> struct SkImpl : ISk {
     return o.str();
   }
 
-  std::string pfx() override {
-    const std::string img = image();
-    const std::string ref = content<F, T>(sk);
-    const uint8_t* d = reinterpret_cast<const uint8_t*>(img.data());
-    const size_t n = img.size();
-    std::string details;
-    // cases: path-major; a warm-up call first so that lazily initialised library state is not counted as a leak
-    auto fn = [&](size_t i) -> char {
-      static bool warm = false;
-      if (!warm) { int fd = g_progress_fd; g_progress_fd = -1; try_case<F, T>(d, n, 0, ref, false); try_case<F, T>(d, n, 1, ref, false); g_progress_fd = fd; warm = true; }
-      return try_case<F, T>(d, i % n, static_cast<int>(i / n), ref, false);
-    };
-    std::string codes = n ? run_cases(2 * n, fn, details) : "";
-    std::ostringstream o;
-    o << "PFX " << kind() << " " << vh::hex_of_bytes(d, n) << " | bytes=" << codes.substr(0, n) << " stream=" << codes.substr(n) << " |" << details;
-    return o.str();
-  }
+  std::string pfx() override { return pfx_of<F, T>(kind(), image(), content<F, T>(sk)); }
 
   std::string img() override {
     const std::string im = image();
@@ -431,37 +471,7 @@ template<class F, class T> struct SkImpl : ISk {
       std::to_string(im.size()) + " wsum=" + std::to_string(wsum) + " n=" + std::to_string(sk.get_n());
   }
 
-  // offsets: the byte positions to corrupt (chosen by the spec from the Lean field map: all structural bytes);
-  // none given = the first 64 bytes
-  std::string cor(const std::vector<size_t>& offsets) override {
-    const std::string img = image();
-    const std::string ref = content<F, T>(sk);
-    const size_t n = img.size();
-    std::vector<size_t> ofs;
-    if (offsets.empty()) { for (size_t i = 0; i < std::min<size_t>(n, 64); ++i) ofs.push_back(i); }
-    else { for (size_t o : offsets) if (o < n) ofs.push_back(o); }
-    const size_t nofs = ofs.size();
-    std::string details;
-    auto fn = [&](size_t i) -> char {
-      static bool warm = false;
-      const uint8_t* d = reinterpret_cast<const uint8_t*>(img.data());
-      if (!warm) { int fd = g_progress_fd; g_progress_fd = -1; try_case<F, T>(d, n, 0, ref, true); try_case<F, T>(d, n, 1, ref, true); g_progress_fd = fd; warm = true; }
-      const int path = static_cast<int>(i / (nofs * 8));
-      const size_t off = ofs[(i % (nofs * 8)) / 8];
-      const int j = static_cast<int>(i % 8);
-      std::string m = img;
-      m[off] = static_cast<char>(replacement(static_cast<uint8_t>(img[off]), j));
-      if (m == img) return 'a';
-      return try_case<F, T>(reinterpret_cast<const uint8_t*>(m.data()), n, path, ref, true);
-    };
-    std::string codes = run_cases(2 * nofs * 8, fn, details, 8);
-    std::ostringstream o;
-    o << "COR " << kind() << " " << vh::hex_of_bytes(reinterpret_cast<const uint8_t*>(img.data()), n) << " | ofs=";
-    for (size_t i = 0; i < nofs; ++i) o << (i ? "," : "") << ofs[i];
-    if (!nofs) o << "-";
-    o << " bytes=" << codes.substr(0, nofs * 8) << " stream=" << codes.substr(nofs * 8) << " |" << details;
-    return o.str();
-  }
+  std::string cor(const std::vector<size_t>& offsets) override { return cor_of<F, T>(kind(), image(), content<F, T>(sk), offsets); }
 };
 
 template<class F, class T> std::string deser_content(const std::vector<uint8_t>& b) {
@@ -532,6 +542,20 @@ int main() {
       return get(w.at(1)).cor(ofs);
     }
     if (op == "img") return get(w.at(1)).img();
+    if (op == "pfximg" || op == "corimg") {     // <kind> <hex> [offsets]: the same sweeps over a stored (legacy / shipped) image
+      auto dot = w.at(1).find('.');
+      if (dot == std::string::npos) throw std::invalid_argument("kind");
+      auto b = vh::bytes_of_hex(w.at(2));
+      const std::string img(b.begin(), b.end());
+      std::vector<size_t> ofs;
+      if (w.size() > 3) { std::istringstream is(w[3]); std::string t; while (std::getline(is, t, ',')) ofs.push_back(static_cast<size_t>(atol(t.c_str()))); }
+      std::string out;
+      dispatch(w[1].substr(0, dot), w[1].substr(dot + 1), [&](auto f, auto t) {
+        const std::string ref = stored_ref<decltype(f), decltype(t)>(img);
+        out = op == "pfximg" ? pfx_of<decltype(f), decltype(t)>(w[1], img, ref) : cor_of<decltype(f), decltype(t)>(w[1], img, ref, ofs);
+      });
+      return out;
+    }
     if (op == "deser") {
       auto dot = w.at(1).find('.');
       if (dot == std::string::npos) throw std::invalid_argument("kind");
